@@ -12,6 +12,57 @@
 #include <iomanip>
 #endif // DF__SQF_RUNTIME__ASSEMBLY_DEBUG_ON_EXECUTE
 
+// Hands a raised runtime error to the nearest dynamically enclosing handler.
+// Returns false if there is none; the stack trace has been logged in that case.
+static bool recover_from_runtime_error(sqf::runtime::runtime& runtime, sqf::runtime::context& context_active, sqf::runtime::diagnostics::diag_info dinf)
+{
+    auto& runtime_error = runtime.__runtime_error();
+    auto log_messages = runtime.log_messages;
+    runtime.log_messages.clear();
+    // Build Stacktrace
+    std::vector<sqf::runtime::frame> stacktrace_frames(context_active.frames_rbegin(), context_active.frames_rend());
+    sqf::runtime::diagnostics::stacktrace stacktrace(stacktrace_frames);
+
+    // Try to find a frame that has recover behavior for runtime error
+    auto res = std::find_if(context_active.frames_rbegin(), context_active.frames_rend(),
+        [](sqf::runtime::frame& frame) -> bool { return frame.can_recover_runtime_error(); });
+
+    while (res != context_active.frames_rend())
+    { // We found a recoverable frame
+        stacktrace.value = std::make_shared<sqf::types::d_array>(log_messages.begin(), log_messages.end());
+        // Push Stacktrace to value-stack
+        context_active.push_value({ std::make_shared<sqf::types::d_stacktrace>(stacktrace) });
+
+        // Pop all frames between result and current_frame
+        size_t frames_to_pop = res - context_active.frames_rbegin();
+        for (size_t i = 0; i < frames_to_pop; i++)
+        {
+            context_active.pop_frame();
+        }
+
+        // Recover from exception
+        if (context_active.current_frame().recover_runtime_error(runtime) != sqf::runtime::frame::result::error)
+        {
+            runtime_error = false;
+            return true;
+        }
+        // The frame declined (try-catch only takes what was thrown): the error belongs to the next enclosing handler
+        context_active.pop_value();
+        res = std::find_if(context_active.frames_rbegin() + 1, context_active.frames_rend(),
+            [](sqf::runtime::frame& frame) -> bool { return frame.can_recover_runtime_error(); });
+    }
+    // No recover frame available
+#ifdef DF__SQF_RUNTIME__ASSEMBLY_DEBUG_ON_EXECUTE
+    std::cout << "\x1B[33m[ASSEMBLY ASSERT]\033[0m" <<
+        "        " <<
+        "        " <<
+        "    " << "\x1B[36mEXIT execute_do\033[0m as runtime error occured" << std::endl;
+#endif // DF__SQF_RUNTIME__ASSEMBLY_DEBUG_ON_EXECUTE
+    runtime.__logmsg(logmessage::runtime::Stacktrace(dinf, stacktrace));
+    runtime_error = false;
+    return false;
+}
+
 static sqf::runtime::runtime::result execute_do(sqf::runtime::runtime& runtime, size_t exit_after)
 {
     auto& context_active = runtime.context_active();
@@ -231,47 +282,9 @@ static sqf::runtime::runtime::result execute_do(sqf::runtime::runtime& runtime, 
         {
             runtime.log_messages.clear();
         }
-        else
+        else if (!recover_from_runtime_error(runtime, context_active, (*instruction)->diag_info()))
         {
-            auto log_messages = runtime.log_messages;
-            runtime.log_messages.clear();
-            // Build Stacktrace
-            std::vector<sqf::runtime::frame> stacktrace_frames(context_active.frames_rbegin(), context_active.frames_rend());
-            sqf::runtime::diagnostics::stacktrace stacktrace(stacktrace_frames);
-
-            // Try to find a frame that has recover behavior for runtime error
-            auto res = std::find_if(context_active.frames_rbegin(), context_active.frames_rend(),
-                [](sqf::runtime::frame& frame) -> bool { return frame.can_recover_runtime_error(); });
-
-            if (res != context_active.frames_rend())
-            { // We found a recoverable frame
-                stacktrace.value = std::make_shared<sqf::types::d_array>(log_messages.begin(), log_messages.end());
-                // Push Stacktrace to value-stack
-                context_active.push_value({ std::make_shared<sqf::types::d_stacktrace>(stacktrace) });
-
-                // Pop all frames between result and current_frame
-                size_t frames_to_pop = res - context_active.frames_rbegin();
-                for (size_t i = 0; i < frames_to_pop; i++)
-                {
-                    context_active.pop_frame();
-                }
-
-                // Recover from exception
-                context_active.current_frame().recover_runtime_error(runtime);
-                runtime_error = false;
-            }
-            else
-            { // No recover frame available, exit method
-#ifdef DF__SQF_RUNTIME__ASSEMBLY_DEBUG_ON_EXECUTE
-                std::cout << "\x1B[33m[ASSEMBLY ASSERT]\033[0m" <<
-                    "        " <<
-                    "        " <<
-                    "    " << "\x1B[36mEXIT execute_do\033[0m as runtime error occured" << std::endl;
-#endif // DF__SQF_RUNTIME__ASSEMBLY_DEBUG_ON_EXECUTE
-                runtime.__logmsg(logmessage::runtime::Stacktrace((*instruction)->diag_info(), stacktrace));
-                runtime_error = false;
-                return sqf::runtime::runtime::result::runtime_error;
-            }
+            return sqf::runtime::runtime::result::runtime_error;
         }
     }
 }
